@@ -27,3 +27,23 @@ func TestC20RewriteKeepsAutoIncrementCounter(t *testing.T) {
 		t.Errorf("ALTER TABLE … AUTO_INCREMENT = 100 is lost by a later rewriting ALTER: %s, want %s", got, want)
 	}
 }
+
+// C20-U tableEditor.Update: an UPDATE (or INSERT ... ON DUPLICATE KEY UPDATE) that moves a row's AUTO_INCREMENT cell
+// past the counter stores that row without looking at the counter, so a later generated value equals the stored one.
+func TestC20UpdateRaisesAutoIncrementCounter(t *testing.T) {
+	e, ctx := newEngine(t)
+	mustRun(t, e, ctx, "CREATE TABLE t (id int auto_increment, v int, key (id))")
+	mustRun(t, e, ctx, "INSERT INTO t (v) VALUES (1),(2)")
+	mustRun(t, e, ctx, "UPDATE t SET id = 4 WHERE v = 2")
+	mustRun(t, e, ctx, "INSERT INTO t (v) VALUES (3),(4),(5)")
+	if got, want := show(mustRun(t, e, ctx, "SELECT id, v FROM t ORDER BY v")), "[[1 1] [4 2] [5 3] [6 4] [7 5]]"; got != want {
+		t.Errorf("after UPDATE id=4 generated ids must exceed 4 (MySQL 8: 5,6,7): got %s, want %s", got, want)
+	}
+
+	mustRun(t, e, ctx, "CREATE TABLE p (id int primary key auto_increment, v int)")
+	mustRun(t, e, ctx, "INSERT INTO p (v) VALUES (1)")
+	mustRun(t, e, ctx, "INSERT INTO p (id, v) VALUES (1, 9) ON DUPLICATE KEY UPDATE id = 3")
+	if _, err := run(t, e, ctx, "INSERT INTO p (v) VALUES (2),(3)"); err != nil {
+		t.Errorf("generated id collides with the id stored by ON DUPLICATE KEY UPDATE: %v", err)
+	}
+}
